@@ -38,7 +38,20 @@ fn payload(i: usize, size: usize) -> Vec<Vec<u8>> {
     body.extend((0..size).map(|j| (i * 31 + j) as u8));
     body.extend_from_slice(&[0xA5, 0x5A, 0, 0]);
     body.extend_from_slice(&(i as u32).to_be_bytes());
-    vec![b"t".to_vec(), body]
+    // frame structure varies with the message number: topic + body, topic + body in two frames
+    // (a dropped message must be dropped whole, whatever its frame count), one frame only
+    match i % 3 {
+        0 => vec![b"t".to_vec(), body],
+        1 => {
+            let tail = body.split_off(body.len() / 2);
+            vec![b"t".to_vec(), body, tail]
+        }
+        _ => {
+            let mut one = b"t".to_vec();
+            one.extend(body);
+            vec![one]
+        }
+    }
 }
 
 fn slow_world(ctx: &mut Ctx) {
